@@ -171,6 +171,8 @@ impl<T: Copy + Clone + Number + Signed + std::fmt::Debug> Polynomial<T> {
         const MAX: usize = 1000; // TODO make this a parameter in the struct?
         let mut count = 0;
         while !r.is_zero() && r.degree()? >= v.degree()? {
+            #[cfg(feature = "verif")]
+            crate::verif::step( "polydiv", count );
             let mut t = Polynomial::<T>::empty();
             t.coeffs = vec![ T::zero(); r.degree()? - v.degree()? + 1 ];
             t.coeffs[ r.degree()? - v.degree()? ] = r.coeffs[ r.degree()? ] / v.coeffs[ v.degree()? ];
